@@ -28,7 +28,7 @@ def rejectLoop (c : Nat) : Nat → List Nat → Option (Nat × List Nat)
   | v, [] => if v < c then some (v, []) else none
   | v, w :: ws' => if v < c then some (v, w :: ws') else rejectLoop c w ws'
 
-/-- `_roll64` after the `dicePoints > MaxInt64-1` guard, `n = uint64(dicePoints)`, `n ≠ 0` -/
+/-- `_roll64`, `n = uint64(dicePoints)`, `n ≠ 0` -/
 def roll64 (n : Nat) : List Nat → Option (Nat × List Nat)
   | [] => none
   | v :: ws =>
@@ -44,7 +44,6 @@ def roll (dicePoints : Int) (mode : Int) (ws : List Nat) : Option (Int × List N
   if dicePoints == 0 then some (0, ws)
   else if mode == -1 then some (1, ws)
   else if mode == 1 then some (dicePoints, ws)
-  else if dicePoints > maxInt64 - 1 then some (0, ws)
   else match roll64 (toU64 dicePoints) ws with
     | none => none
     | some (r, ws') => some (wrap64 (r : Int), ws')
